@@ -13,12 +13,15 @@ CHECKS = {
     "C01": dict(cat="model_checking", ref="DESIGN.md §6 C01",
                 text="TLC model-checks the implementation-shaped Tunnel spec (Integrity invariants) at small constants; "
                      "real iodine+iodined run in the simulation harness over configurations x packets x fault schedules and "
-                     "every tun write is judged by TLC against the MonIntegrity monitor (trace validation).",
-                technique="TLA+ spec + TLC model checking; TLC trace validation of real executions (MonIntegrity)"),
+                     "every tun write is judged by TLC against the MonIntegrity monitor (trace validation); every iteration of the "
+                     "real server and client loops in those runs is validated by TLC against Tunnel.tla itself (TraceTunnelSrv / "
+                     "TraceTunnelCli, full state projection; drift only).",
+                technique="TLA+ spec + TLC model checking; TLC trace validation of real executions (MonIntegrity; Layer A binding to Tunnel.tla)"),
     "C14": dict(cat="model_checking", ref="DESIGN.md §6 C14",
                 text="TLC checks NoSurplus/HeldAtMostTwo on the Tunnel spec; every answer the real server emits in simulated "
-                     "runs (loss/dup/delay/re-ask with new ids) is matched by TLC against the MonAnswers monitor.",
-                technique="TLA+ spec + TLC model checking; TLC trace validation of real executions (MonAnswers)"),
+                     "runs (loss/dup/delay/re-ask with new ids) is matched by TLC against the MonAnswers monitor; the same runs are "
+                     "bound to Tunnel.tla step by step (TraceTunnelSrv / TraceTunnelCli; drift only).",
+                technique="TLA+ spec + TLC model checking; TLC trace validation of real executions (MonAnswers; Layer A binding to Tunnel.tla)"),
     "C15": dict(cat="model_checking", ref="DESIGN.md §6 C15",
                 text="TLC checks FragBound/FragNumbering on the Tunnel spec; every downstream data answer of the real server "
                      "is judged by TLC against the MonFragsize monitor (size bound, numbering, last flag).",
@@ -29,10 +32,12 @@ CHECKS = {
                      "exactly-once/in-order/30 s deadline on clean paths, delivery within 30 s after fault prefix + 15 s settle, no exit.",
                 technique="TLA+ spec + TLC model checking; TLC trace validation of timed real executions (MonProgress)"),
     "C16": dict(cat="model_checking", ref="DESIGN.md §6 C16",
-                text="TLC explores duplicate deliveries (same/new id, flipped case) on the Tunnel spec; in simulated runs a relay "
+                text="TLC explores duplicate deliveries (same/new id, flipped case) on the Tunnel spec (invariant NeverTwice: a step that "
+                     "consumes a query the server has recently seen moves no stream position); in simulated runs a relay "
                      "re-delivers chosen queries at chosen distances and TLC judges each against the MonRedelivery monitor "
-                     "(stream positions from users[] unchanged inside the windows, cached repeat answered with the same payload).",
-                technique="TLA+ spec + TLC model checking; TLC trace validation of real executions (MonRedelivery)"),
+                     "(stream positions from users[] unchanged inside the windows, cached repeat answered with the same payload); the runs "
+                     "are bound to Tunnel.tla step by step (TraceTunnelSrv / TraceTunnelCli; drift only).",
+                technique="TLA+ spec + TLC model checking; TLC trace validation of real executions (MonRedelivery; Layer A binding to Tunnel.tla)"),
 }
 
 CHECKS.update({
